@@ -9,7 +9,7 @@
 //
 //	refused   cycle / self-dependency / missing dependency           (C14: nothing recorded)
 //	dry       Options{Dry:true} on a valid DAG                       (C03: zero executor events, no history)
-//	pre       the DAG's own precondition is unmet (and a met one)    (C04: no step, no handler, no history)
+//	pre       1-3 DAG preconditions in every met/unmet order         (C04: any unmet => no step, no handler, no history)
 //	running   a second start / retry while the first is active       (C16: refused silently, first untouched)
 //	normal    control: a plain run                                   (steps + handlers run, one history file)
 //	bindfail  the socket path cannot be bound                        (run recorded, nothing executed)
@@ -74,7 +74,9 @@ type Case struct {
 	Steps        []StepJ   `json:"steps"`
 	Handlers     []string  `json:"handlers"`
 	Dry          bool      `json:"dry"`
+	SecondPath   string    `json:"second_path"` // class running: the spelling of the DAG file's path given to the second run ("" = clean)
 	HasPre       bool      `json:"has_pre"`
+	PrePattern   string    `json:"pre_pattern"` // the DAG's preconditions in order: M = met, U = unmet
 	PreOk        bool      `json:"pre_ok"`
 	Retry        bool      `json:"retry"`         // the observed run is a retry (Options.RetryTarget set)
 	Running      bool      `json:"probe_running"` // another agent of the same DAG file was active when this run started
@@ -245,19 +247,34 @@ type spec struct {
 	steps    []StepJ
 	modes    map[string]string // step / handler name -> mode
 	handlers []string          // exit, success, failure, cancel
-	pre      int               // 0 none, 1 met, 2 unmet
+	pre      int               // 0 none, 1 met, 2 unmet (a single DAG precondition) - or, when pres is set:
+	pres     []bool            // the DAG's preconditions in order, true = met
 	params   string            // parameters the DAG is loaded with
 	reqID    string            // request id of the next agent ("" = "req-"+tag)
+	loadPath string            // the path the DAG is loaded from ("" = file(); else another spelling of the same file)
 }
 
 func (s *spec) yaml(tag string) string {
 	var b strings.Builder
 	fmt.Fprintf(&b, "name: %s\nhistRetentionDays: 30\nmaxCleanUpTimeSec: 5\n", s.name)
-	switch s.pre {
-	case 1:
-		b.WriteString("preconditions:\n  - condition: \"verif-value\"\n    expected: \"verif-value\"\n")
-	case 2:
-		b.WriteString("preconditions:\n  - condition: \"verif-value\"\n    expected: \"verif-other\"\n")
+	pres := s.pres
+	if pres == nil {
+		switch s.pre {
+		case 1:
+			pres = []bool{true}
+		case 2:
+			pres = []bool{false}
+		}
+	}
+	if len(pres) > 0 {
+		b.WriteString("preconditions:\n")
+		for i, met := range pres {
+			exp := fmt.Sprintf("verif-value-%d", i)
+			if !met {
+				exp = "verif-other"
+			}
+			fmt.Fprintf(&b, "  - condition: \"verif-value-%d\"\n    expected: \"%s\"\n", i, exp)
+		}
 	}
 	st := func(name string, deps []string) {
 		mode := s.modes[name]
@@ -366,7 +383,11 @@ func prepareG(s *spec, tag string, opts *agent.Options, gate chan struct{}) (*ru
 	if err := os.WriteFile(s.file(), []byte(s.yaml(tag)), 0o644); err != nil {
 		return nil, err
 	}
-	wf, err := dag.Load("", s.file(), s.params)
+	lp := s.loadPath
+	if lp == "" {
+		lp = s.file()
+	}
+	wf, err := dag.Load("", lp, s.params)
 	if err != nil {
 		return nil, fmt.Errorf("load: %w", err)
 	}
@@ -564,9 +585,35 @@ func refusedSteps(rng *vh.Rng) ([]StepJ, string) {
 	}
 }
 
+// all boolean vectors of length 1..3
+var prePatterns = func() [][]bool {
+	out := [][]bool{}
+	for n := 1; n <= 3; n++ {
+		for m := 0; m < 1<<uint(n); m++ {
+			v := make([]bool, n)
+			for i := range v {
+				v[i] = m>>uint(i)&1 == 1
+			}
+			out = append(out, v)
+		}
+	}
+	return out
+}()
+
 func fill(c *Case, s *spec) {
 	c.Steps, c.Handlers = s.steps, s.handlers
 	c.HasPre, c.PreOk = s.pre != 0, s.pre == 1
+	if s.pres != nil {
+		c.HasPre, c.PreOk, c.PrePattern = len(s.pres) > 0, true, ""
+		for _, m := range s.pres {
+			if m {
+				c.PrePattern += "M"
+			} else {
+				c.PrePattern += "U"
+				c.PreOk = false
+			}
+		}
+	}
 	c.BindOk = true
 	if c.Handlers == nil {
 		c.Handlers = []string{}
@@ -599,10 +646,14 @@ func single(k int, rng *vh.Rng, work, class string) Case {
 		c.Sub = "dry"
 	case "pre":
 		s.steps, s.handlers = validSteps(rng), someHandlers(rng)
-		s.pre = 2
-		c.Sub = "unmet"
-		if rng.Chance(1, 4) {
-			s.pre, c.Sub = 1, "met"
+		// one to three DAG preconditions, every met/unmet order (14 patterns, taken in turn)
+		pat := prePatterns[k%len(prePatterns)]
+		s.pres = pat
+		c.Sub = "met"
+		for _, m := range pat {
+			if !m {
+				c.Sub = "unmet"
+			}
 		}
 		if rng.Chance(1, 5) {
 			opts.Dry, c.Dry = true, true
@@ -686,6 +737,17 @@ func running(k int, rng *vh.Rng, work string, sub string, retry bool) Case {
 	opts := &agent.Options{}
 	s2 := *s
 	s2.modes = map[string]string{} // the second run's steps would not block if they ran
+	// the second run is given the same file, in 3 of 4 cases under a non-clean spelling of its absolute path
+	d, f := filepath.Dir(s.file()), filepath.Base(s.file())
+	switch rng.Below(4) {
+	case 1:
+		s2.loadPath = d + "//" + f
+	case 2:
+		s2.loadPath = d + "/./" + f
+	case 3:
+		s2.loadPath = d + "/../" + filepath.Base(d) + "/" + f
+	}
+	c.SecondPath = s2.loadPath
 	if retry {
 		var target *model.Status
 		func() {
